@@ -1,5 +1,5 @@
 (* Properties/C14.v — syncing: loading is all-or-nothing on the loaded flag. *)
-From Verif Require Import U64 Spice SpiceP RepoConstants Ledger ListFacts LedgerInv LedgerGraph Ancestors LedgerFunds LedgerReach TruncateP.
+From Verif Require Import U64 Spice SpiceP RepoConstants Ledger ListFacts LedgerInv LedgerGraph Ancestors LedgerFunds LedgerReach TruncateP LoadWitness.
 From Coq Require Import NArith.
 
 (* Whatever the stream, a load that does not succeed leaves the node marked as not loaded. *)
@@ -20,3 +20,15 @@ Theorem C14_malformed_stream_refused : forall L s topo,
   snd (load_dag L s topo) = false.
 Proof. exact load_rejects_malformed. Qed.
 Print Assumptions C14_malformed_stream_refused.
+
+(* "From then on accepts and rejects gossip exactly as the peer does" is FALSE of the faithful model (and of the code:
+   KNOWN-FINDING followup-gossip-differs:weight-window-not-reproduced): the loaded node holds the peer's vertices,
+   edges and genesis wallet, but its admission counters restart (weight 50 / throughput 50), so a vertex built on a
+   light tip is refused by a peer whose weight has grown and accepted by the node that synced from it. *)
+Theorem C14_followup_verdicts_refuted :
+  snd (load_dag (init 9%N) w_stream w_stream) = true /\
+  map nv (dag w_dst) = map nv (dag w_src) /\ map lp (dag w_dst) = map lp (dag w_src) /\ genesis w_dst = genesis w_src /\
+  (weight w_src, throughput w_src) = (1000000, 62)%Z /\ (weight w_dst, throughput w_dst) = (50, 50)%Z /\
+  snd (add_leaf w_src w_follow None) = RRejected /\ snd (add_leaf w_dst w_follow None) = ROk.
+Proof. exact load_counters_not_reproduced. Qed.
+Print Assumptions C14_followup_verdicts_refuted.
